@@ -59,6 +59,7 @@ def convert_both(path, py_first=False):
     A.install_memo()
     py = None
     if py_first:
+        path = Path(path)  # the file name may be given as a path object as well as a string
         with impl(ID, "ampgen2goofitpy"):
             py = ampgen2goofitpy(path, ret_output=True)
     with impl(ID, "ampgen2goofit"):
